@@ -39,7 +39,18 @@ def drivers(tier):
             explicit_ids=(1, 2), max_autos=1,
             shapes=((), ('A',), ('HKR',), ('A', 'HKR'))),
             dict(max_states=250000, time_budget=240))
+        # a deferred delete of an id that owns nothing, then clear(): the
+        # restarted id generator hands that id out again
+        d['stray-mark-clear'] = (WorldDriver(
+            'stray-mark-clear', own='Q', types=('A', 'X'), ids=(1, 2),
+            explicit_ids=(2,), max_autos=2, bogus_delete=True,
+            stray_marks=True, shapes=((), ('A',), ('A', 'X'))),
+            dict(max_states=250000, time_budget=240))
     else:
+        d['stray-mark-clear'] = (WorldDriver(
+            'stray-mark-clear', own='Q', ids=(1, 2, 3), explicit_ids=(2,),
+            max_autos=2, bogus_delete=True, stray_marks=True),
+            dict(max_states=1000000, time_budget=900))
         d['callback-recreates'] = (WorldDriver(
             'callback-recreates', own='Q', types=('A', 'X', 'HKR'),
             ids=(1, 2), explicit_ids=(1, 2), max_autos=1,
@@ -71,7 +82,8 @@ def run(tier, rep):
         'run keeps it to a stated depth',
         'exceptions out of process() belong to C05: branch pruned and counted',
     ]
-    rep.require_hits(replace_same_type=1, remove_by_supertype=1, clear=1)
+    rep.require_hits(replace_same_type=1, remove_by_supertype=1, clear=1,
+                     clear_with_stray_mark=1)
     for name, (driver, kw) in drivers(tier).items():
         kernel.explore(driver, rep, part=name, params=driver.params(), **kw)
 
